@@ -146,6 +146,25 @@ impl<C: NtpClock> KalmanClockController<C> {
         }
     }
 
+    /// Per registered source (ordered by id): (id, usable, Some(f64 view), advertised root
+    /// dispersion in units) — the controller's own copies, i.e. what select/combine work on.
+    pub(crate) fn ga_table(&self) -> Vec<(u64, bool, Option<[f64; 8]>, i64)> {
+        let mut v: Vec<_> = self
+            .sources
+            .iter()
+            .map(|(id, (s, u))| {
+                (
+                    id.0,
+                    *u,
+                    s.as_ref().map(snap_f64s),
+                    s.as_ref().map_or(0, |s| dur_units(s.source_uncertainty)),
+                )
+            })
+            .collect();
+        v.sort_by_key(|e| e.0);
+        v
+    }
+
     /// Per registered source (ordered by id): (id, usable, Some(f64 view) if a snapshot is held).
     pub(crate) fn ga_sources(&self) -> Vec<(u64, bool, Option<[f64; 8]>)> {
         let mut v: Vec<_> = self
